@@ -121,6 +121,10 @@ def build_env(source, name, cfg_opts, arg_opts, roots, scratch):
     from twosigma.memento import Environment, ConfigurationRepository, FunctionCluster
     from twosigma.memento.storage_filesystem import FilesystemStorageBackend
     cfg = storage_cfg(cfg_opts, roots)
+    if source == "dict" and _n[0] % 2:
+        # the same configuration object was used before, together with explicit path arguments, for another backend:
+        # a constructor reads its configuration, it does not write to it
+        FilesystemStorageBackend(config=cfg, path=os.path.join(scratch, "elsewhere", "d"), metadata_path=os.path.join(scratch, "elsewhere", "m"))
     if source in ("constructor", "dict"):
         kw = {}
         if arg_opts.get("path") is not None:
@@ -158,6 +162,10 @@ def build_env(source, name, cfg_opts, arg_opts, roots, scratch):
         if cfg_opts.get("ro") is not None:
             lines.append("      readonly: %s" % ("true" if cfg_opts["ro"] else "false"))
         open(path, "w").write("\n".join(lines) + "\n")
+        if params:
+            # the same template was rendered before, in this process, with other values for the same parameters
+            decoy = {k: (os.path.join(scratch, "decoy", k) if k.endswith("_dir") else 77) for k in params}
+            ConfigurationRepository.from_file(path, **decoy)
         repo = ConfigurationRepository.from_file(path, **params)
         return Environment(name="e", base_dir=scratch, repos=[repo])
     raise ValueError(source)
@@ -262,7 +270,8 @@ def check_order(rng, scratch):
             cid += 1
             lab = "R%d" % cid
             roots[lab] = os.path.join(scratch, lab)
-            clusters[nm] = FunctionCluster(name=nm, storage=FilesystemStorageBackend(path=roots[lab]))
+            # the key a repository maps a cluster under is what names it; the cluster's own `name` may differ
+            clusters[nm] = FunctionCluster(name=(nm if rng.random() < 0.5 else "own_" + nm + str(cid)), storage=FilesystemStorageBackend(path=roots[lab]))
             rs.append("%d:%d" % (names.index(nm) + 1, cid))
             ident[cid] = lab
         if rng.random() < 0.4:
